@@ -51,11 +51,14 @@ package capacity
 //@   requires lock-entry: !held[addr(pq.Mutex)]
 //@   modifies nothing
 //@   ensures result == pq.poppedItem
+// lastDequeued[q]: the space id most recently removed from plotter queue q by Delete (ghost)
+//@ ghost lastDequeued map[int]int
 //@ func (*plotterQueue).Delete
 //@   attr trusted
 //@   requires lock-entry: !held[addr(pq.Mutex)]
-//@   modifies nothing
+//@   modifies lastDequeued[pq]
 //@   ensures pq.poppedItem == old(pq.poppedItem)
+//@   ensures dequeues-that-space: lastDequeued[pq] == sid
 
 //@ spec func skUnlocked(sk *SpaceKeeper) bool = !held[addr(sk.stateLock)] && !rheld[addr(sk.stateLock)] && sk.queue != nil && !held[addr(sk.queue.Mutex)]
 //@ spec func othersUntouched(sk *SpaceKeeper, sid string) bool = forall t string :: t != sid ==> wsm[ixm(sk, 0)][t] == old(wsm[ixm(sk, 0)][t]) && wsm[ixm(sk, 1)][t] == old(wsm[ixm(sk, 1)][t]) && wsm[ixm(sk, 2)][t] == old(wsm[ixm(sk, 2)][t]) && wsm[ixm(sk, 3)][t] == old(wsm[ixm(sk, 3)][t]) && wsm[ixm(sk, 4)][t] == old(wsm[ixm(sk, 4)][t])
@@ -81,6 +84,7 @@ package capacity
 
 //@ func (*SpaceKeeper).StopWS
 //@   requires lock-entry: skUnlocked(sk)
+//@   ensures a-space-acted-on-leaves-the-plotter-queue: old(inState(sk, 4, sid)) && old(wsAt(sk, 4, sid).using) ==> lastDequeued[sk.queue] == sid
 //@   requires inv: invSK(sk)
 //@   ensures inv: invSK(sk)
 //@   ensures mining-becomes-ready: old(inState(sk, 3, sid)) && old(wsAt(sk, 4, sid).using) ==> inState(sk, 2, sid) && !inState(sk, 3, sid) && wsAt(sk, 2, sid) == old(wsAt(sk, 3, sid)) && wsAt(sk, 2, sid).state == 2
@@ -109,6 +113,7 @@ package capacity
 
 //@ func (*SpaceKeeper).RemoveWS
 //@   requires lock-entry: skUnlocked(sk)
+//@   ensures a-space-acted-on-leaves-the-plotter-queue: old(inState(sk, 4, sid)) && old(wsAt(sk, 4, sid).using) ==> lastDequeued[sk.queue] == sid
 //@   requires inv: invSK(sk)
 //@   ensures inv: invSK(sk)
 //@   ensures refused-while-plotting-or-mining: old(inState(sk, 4, sid)) && old(wsAt(sk, 4, sid).using) && (old(inState(sk, 1, sid)) || old(inState(sk, 3, sid))) ==> err == ErrWorkSpaceIsNotStill
@@ -117,6 +122,7 @@ package capacity
 
 //@ func (*SpaceKeeper).DeleteWS
 //@   requires lock-entry: skUnlocked(sk)
+//@   ensures a-space-acted-on-leaves-the-plotter-queue: old(inState(sk, 4, sid)) && old(wsAt(sk, 4, sid).using) ==> lastDequeued[sk.queue] == sid
 //@   requires inv: invSK(sk)
 //@   attr effect:fs.remove
 //@   ensures inv: invSK(sk)
